@@ -665,8 +665,23 @@ func (em *emitter) emitImport(node *ast.Import, isTemplate bool) []*runtime.Func
 	}
 
 	if !blankImport {
+		// With 'import "path" for A, B' only the listed names are imported.
+		enabled := func(name string) bool {
+			if node.For == nil {
+				return true
+			}
+			for _, ident := range node.For {
+				if ident.Name == name {
+					return true
+				}
+			}
+			return false
+		}
 		// Make available the imported functions.
 		for name, fn := range funcs {
+			if !enabled(name) {
+				continue
+			}
 			if importName != "" {
 				name = importName + "." + name
 			}
@@ -675,6 +690,9 @@ func (em *emitter) emitImport(node *ast.Import, isTemplate bool) []*runtime.Func
 
 		// Add the imported variables.
 		for name, v := range vars {
+			if !enabled(name) {
+				continue
+			}
 			if importName != "" {
 				name = importName + "." + name
 			}
